@@ -55,4 +55,16 @@ PROPS = {
         trusted=["crate bitvec / core as compiled"],
         assumptions=["fault-free storage (faults are C18)"],
     ),
+    "C10": dict(
+        modules=["Fuota.Props.C10"],
+        suites=[dict(name="d2", cfg="matrix"), dict(name="d2", cfg="matrix-ffr")],
+        rule="query = one row request (generator, M, N or matrix row index, cfg) answered by the Rust generator and by "
+             "the Lean model, compared on the first ceil(M/8) row bytes (or PANIC); the oracle compares every row "
+             "with an independent Rust transcription of TS004 matrix_line and checks bounds / non-emptiness / "
+             "force-full-r weight; `!sweep` lines (thorough) are oracle-only; distinct = distinct query text per cfg",
+        trusted=["crate bitvec / core as compiled", "Lean kernel `decide` on 384-bit Nat literals (interop vectors)"],
+        assumptions=["UpdaterMatrix is private: its index mapping is covered by the theorem updater_matrix_row and "
+                     "end to end by D5 (the session model uses the same generator), not by D2",
+                     "release arithmetic (wrapping seed)"],
+    ),
 }
